@@ -61,7 +61,10 @@ StatusOK(e) ==
 AssignOK(e) ==
     /\ \A i \in DOMAIN e.ns : (Len(e.ns[i].shards) = 0 /\ e.ns[i].name \in removed) \/ PartitionSeq(e.ns[i].shards)
     /\ Cardinality(IdSet(e.ns)) = Total(e.ns, 1)
-ClientOK(e) == (cinit \/ Len(ShardsOf(assign, e.name)) > 0) => PartitionSeq(e.shards)
+(* the publication the client holds after this update: the one just applied if it names shards, else the old one *)
+Held(e) == IF e.res = "ok" /\ Len(ShardsOf(assign, e.name)) > 0 THEN ShardsOf(assign, e.name) ELSE pubc
+(* ... and its table must be exactly that publication: nothing stale kept, nothing published missing *)
+ClientOK(e) == Len(Held(e)) > 0 => PartitionSeq(e.shards) /\ TableIsLast(Range(e.shards), Range(Held(e)))
 RouteOK(e) ==
     LET m == {s \in Range(tbl) : Covers(s, e.hash)}
         srv == {s \in Range(pubc) : Covers(s, e.hash)}
@@ -114,7 +117,7 @@ TNext ==
          [] e.a = "ClientRecv" ->
                /\ Check(ClientOK(e), l) /\ Conf(~e.conf \/ e.res # "ok" \/ ClientConf(e), l)
                /\ tbl' = e.shards
-               /\ pubc' = IF e.res = "ok" THEN ShardsOf(assign, e.name) ELSE pubc
+               /\ pubc' = Held(e)
                /\ cinit' = (cinit \/ Len(ShardsOf(assign, e.name)) > 0)
                /\ UNCHANGED <<ids, used, gen, st, assign, present, removed>>
          [] e.a = "Route" ->
